@@ -14,10 +14,110 @@ use egglog::{CommandOutput, EGraph, Term, TermId};
 use serde_json::json;
 use std::collections::HashMap;
 
-struct Export { line: String, steps: Vec<(String, Vec<usize>, usize, usize)>, rules: Vec<String>, nterms: usize }
+struct Export { line: String, steps: Vec<(String, Vec<usize>, usize, usize)>, rules: Vec<String>, nterms: usize,
+                /// the `R …` part of the line (the rules of the checking program, in the model's fragment)
+                rule_text: String,
+                /// number of rules of the checking program (an index >= this names no rule)
+                nrules: usize,
+                /// Rule steps exported as rule steps / left as leaves (rule outside the modelled fragment)
+                rule_steps: usize, rule_steps_leafed: usize }
 
-fn export(store: &ProofStore, root: ProofId) -> Option<Export> {
-    let dag = store.term_dag();
+type RRule = egglog::ast::GenericRule<egglog::ResolvedCall, egglog::ResolvedVar>;
+type RExpr = egglog::ResolvedExpr;
+
+/// rule-side expression as pattern tokens; `None` = outside the modelled fragment (primitives, function
+/// calls where the checker does not evaluate them as terms)
+fn pat(e: &RExpr, in_head: bool, heads: &mut HashMap<String, usize>, vars: &mut HashMap<String, usize>, used: &mut Vec<String>) -> Option<String> {
+    use egglog::ast::{FunctionSubtype, GenericExpr};
+    fn hid(heads: &mut HashMap<String, usize>, h: String) -> usize { let n = heads.len(); *heads.entry(h).or_insert(n) }
+    match e {
+        GenericExpr::Var(_, v) => { used.push(v.name.clone()); let n = vars.len(); Some(format!("v{}", *vars.entry(v.name.clone()).or_insert(n))) }
+        GenericExpr::Lit(_, l) => Some(format!("a{}:0", hid(heads, format!("lit:{l}")))),
+        GenericExpr::Call(_, egglog::ResolvedCall::Func(ft), args) => {
+            if !in_head && ft.subtype != FunctionSubtype::Constructor { return None; }
+            let mut out = format!("a{}:{}", hid(heads, format!("app:{}", ft.name)), args.len());
+            for a in args { out.push(' '); out.push_str(&pat(a, in_head, heads, vars, used)?); }
+            Some(out)
+        }
+        GenericExpr::Call(_, egglog::ResolvedCall::Primitive(_), _) => None,
+    }
+}
+
+/// `R <nb> <nh> F.. U../E..` for one rule of the checking program, with the variables it mentions
+fn rule_tokens(rule: &RRule, heads: &mut HashMap<String, usize>, vars: &mut HashMap<String, usize>) -> Option<(String, Vec<String>)> {
+    use egglog::ast::{FunctionSubtype, GenericAction, GenericExpr, GenericFact};
+    let mut used = vec![]; let mut body = vec![]; let mut head = vec![];
+    for f in &rule.body {
+        match f {
+            // proof normal form of a function fact: (= (f args..) v) is the row term f(args.., v), reflexively
+            GenericFact::Eq(_, GenericExpr::Call(sp, egglog::ResolvedCall::Func(ft), args), v @ GenericExpr::Var(..)) if ft.subtype == FunctionSubtype::Custom => {
+                let mut all = args.clone(); all.push(v.clone());
+                let row = GenericExpr::Call(sp.clone(), egglog::ResolvedCall::Func(ft.clone()), all);
+                let t = pat(&row, true, heads, vars, &mut used)?;
+                if args.iter().any(|a| pat(a, false, heads, vars, &mut vec![]).is_none()) { return None; }
+                body.push(format!("F 0 {t} {t}"));
+            }
+            GenericFact::Eq(_, l, r) => body.push(format!("F 0 {} {}", pat(l, false, heads, vars, &mut used)?, pat(r, false, heads, vars, &mut used)?)),
+            GenericFact::Fact(e) => { let t = pat(e, false, heads, vars, &mut used)?; body.push(format!("F 1 {t} {t}")); }
+        }
+    }
+    for a in &rule.head.0 {
+        match a {
+            GenericAction::Union(_, l, r) => head.push(format!("U {} {}", pat(l, true, heads, vars, &mut used)?, pat(r, true, heads, vars, &mut used)?)),
+            GenericAction::Expr(_, e) => head.push(format!("E {}", pat(e, true, heads, vars, &mut used)?)),
+            GenericAction::Set(sp, f, args, rhs) => { let mut all = args.clone(); all.push(rhs.clone()); head.push(format!("E {}", pat(&GenericExpr::Call(sp.clone(), f.clone(), all), true, heads, vars, &mut used)?)); }
+            GenericAction::Panic(..) | GenericAction::Change(..) => {}
+            GenericAction::Let(..) => return None,
+        }
+    }
+    used.sort(); used.dedup();
+    Some((format!(" R {} {} {} {}", body.len(), head.len(), body.join(" "), head.join(" ")).replace("  ", " ").trim_end().to_string(), used))
+}
+
+
+/// `prog_rules`: the rules of the checking program (cfg hook `verif_proof_rules`); with them, Rule steps are
+/// exported as rule steps for the Lean checker (theorem C12_rule_sound), otherwise as leaves
+fn export_with(store: &ProofStore, root: ProofId, prog_rules: Option<&[RRule]>) -> Option<Export> {
+    // the checker builds the instances of a rule's expressions in its TermDag (`TermDag::app` hash-conses); the
+    // model only looks terms up, so the instances of every used rule's body and head expressions are built here
+    // (in a copy of the proof's dag: existing terms keep their ids) and exported with the proof's own terms
+    let mut dag_owned = store.term_dag().clone();
+    let mut extra: Vec<TermId> = vec![];
+    if let Some(prs) = prog_rules {
+        use egglog::ast::{GenericAction, GenericExpr, GenericFact};
+        fn inst(e: &RExpr, sub: &HashMap<String, TermId>, dag: &mut egglog::TermDag) -> Option<TermId> {
+            match e {
+                GenericExpr::Var(_, v) => sub.get(&v.name).copied(),
+                GenericExpr::Lit(_, l) => Some(dag.lit(l.clone())),
+                GenericExpr::Call(_, egglog::ResolvedCall::Func(ft), args) => { let mut ks = vec![]; for a in args { ks.push(inst(a, sub, dag)?); } Some(dag.app(ft.name.clone(), ks)) }
+                GenericExpr::Call(_, egglog::ResolvedCall::Primitive(_), _) => None,
+            }
+        }
+        let mut seen: std::collections::HashSet<ProofId> = Default::default(); let mut todo = vec![root];
+        while let Some(p) = todo.pop() {
+            if !seen.insert(p) { continue; }
+            match store.get(p).justification() {
+                Justification::Rule { name, premise_proofs, substitution } => {
+                    todo.extend(premise_proofs.iter().copied());
+                    if let Some(rule) = prs.iter().find(|r| &r.name == name) {
+                        let mut es: Vec<RExpr> = vec![];
+                        for f in &rule.body { match f { GenericFact::Eq(sp, GenericExpr::Call(_, h @ egglog::ResolvedCall::Func(_), args), v @ GenericExpr::Var(..)) => { let mut all = args.clone(); all.push(v.clone()); es.push(GenericExpr::Call(sp.clone(), h.clone(), all)); es.extend(args.iter().cloned()); }
+                            GenericFact::Eq(_, l, r) => { es.push(l.clone()); es.push(r.clone()); } GenericFact::Fact(e) => es.push(e.clone()) } }
+                        for a in &rule.head.0 { match a { GenericAction::Union(_, l, r) => { es.push(l.clone()); es.push(r.clone()); } GenericAction::Expr(_, e) => es.push(e.clone()),
+                            GenericAction::Set(sp, f, args, rhs) => { let mut all = args.clone(); all.push(rhs.clone()); es.push(GenericExpr::Call(sp.clone(), f.clone(), all)); } _ => {} } }
+                        let sub: HashMap<String, TermId> = substitution.iter().map(|(k, v)| (k.clone(), *v)).collect();
+                        for e in &es { if let Some(t) = inst(e, &sub, &mut dag_owned) { extra.push(t); } }
+                    }
+                }
+                Justification::MergeFn { old_proof, new_proof, .. } => { todo.push(*old_proof); todo.push(*new_proof); }
+                Justification::Trans(a, b) => { todo.push(*a); todo.push(*b); }
+                Justification::Sym(a) => todo.push(*a),
+                Justification::Congr { proof, child_proof, .. } => { todo.push(*proof); todo.push(*child_proof); }
+                _ => {}
+            }
+        }
+    }
+    let dag = &dag_owned;
     let mut term_ix: HashMap<TermId, usize> = HashMap::new();
     let mut terms: Vec<(usize, Vec<usize>)> = vec![];
     let mut heads: HashMap<String, usize> = HashMap::new();
@@ -35,26 +135,56 @@ fn export(store: &ProofStore, root: ProofId) -> Option<Export> {
     let mut step_ix: HashMap<ProofId, usize> = HashMap::new();
     let mut steps: Vec<(String, Vec<usize>, usize, usize)> = vec![];
     let mut rules = vec![];
+    // the rules of the checking program, as model rules (None: outside the fragment)
+    let mut vars: HashMap<String, usize> = HashMap::new();
+    let rule_toks: Vec<(String, Option<(String, Vec<String>)>)> = prog_rules.map(|rs| rs.iter().map(|r| (r.name.clone(), rule_tokens(r, &mut heads, &mut vars))).collect()).unwrap_or_default();
+    let have_rules = prog_rules.is_some();
+    struct RuleCtx<'a> { have: bool, toks: &'a [(String, Option<(String, Vec<String>)>)], vars: &'a HashMap<String, usize>, exported: usize, leafed: usize }
+    let mut rc = RuleCtx { have: have_rules, toks: &rule_toks, vars: &vars, exported: 0, leafed: 0 };
     fn go(store: &ProofStore, p: ProofId, step_ix: &mut HashMap<ProofId, usize>, steps: &mut Vec<(String, Vec<usize>, usize, usize)>, rules: &mut Vec<String>,
-          tf: &mut dyn FnMut(TermId) -> usize) -> Option<usize> {
+          tf: &mut dyn FnMut(TermId) -> usize, rc: &mut RuleCtx) -> Option<usize> {
         if let Some(i) = step_ix.get(&p) { return Some(*i); }
         let pr = store.get(p);
         let (l, r) = (tf(pr.lhs()), tf(pr.rhs()));
         let (kind, args) = match pr.justification() {
             Justification::Fiat => ("leaf".to_string(), vec![]),
-            Justification::Rule { name, premise_proofs, .. } => { rules.push(name.clone()); for q in premise_proofs { go(store, *q, step_ix, steps, rules, tf)?; } ("leaf".to_string(), vec![]) }
-            Justification::MergeFn { old_proof, new_proof, .. } => { go(store, *old_proof, step_ix, steps, rules, tf)?; go(store, *new_proof, step_ix, steps, rules, tf)?; ("leaf".to_string(), vec![]) }
-            Justification::Trans(a, b) => { let x = go(store, *a, step_ix, steps, rules, tf)?; let y = go(store, *b, step_ix, steps, rules, tf)?; ("trans".to_string(), vec![x, y]) }
-            Justification::Sym(a) => { let x = go(store, *a, step_ix, steps, rules, tf)?; ("sym".to_string(), vec![x]) }
-            Justification::Congr { proof, child_index, child_proof } => { let x = go(store, *proof, step_ix, steps, rules, tf)?; let y = go(store, *child_proof, step_ix, steps, rules, tf)?; ("congr".to_string(), vec![x, *child_index, y]) }
+            Justification::Rule { name, premise_proofs, substitution } => {
+                rules.push(name.clone());
+                let mut prem = vec![]; for q in premise_proofs { prem.push(go(store, *q, step_ix, steps, rules, tf, rc)?); }
+                if !rc.have { ("leaf".to_string(), vec![]) } else {
+                    // `find_map` of the checker: the first rule with that name; none -> an index that names no rule
+                    match rc.toks.iter().position(|(n, _)| n == name) {
+                        None => { rc.exported += 1; let mut a = vec![rc.toks.len(), prem.len()]; a.extend(prem); a.push(0); ("rule".to_string(), a) }
+                        Some(ri) => match &rc.toks[ri].1 {
+                            // every variable the rule mentions must come from the step's substitution (no globals)
+                            Some((_, used)) if used.iter().all(|v| substitution.contains_key(v)) => {
+                                rc.exported += 1;
+                                let mut a = vec![ri, prem.len()]; a.extend(prem);
+                                let mut sub: Vec<(usize, usize)> = substitution.iter().filter_map(|(v, t)| rc.vars.get(v).map(|vi| (*vi, tf(*t)))).collect(); sub.sort();
+                                a.push(sub.len()); for (v, t) in sub { a.push(v); a.push(t); }
+                                ("rule".to_string(), a)
+                            }
+                            _ => { rc.leafed += 1; ("leaf".to_string(), vec![]) }
+                        },
+                    }
+                }
+            }
+            Justification::MergeFn { old_proof, new_proof, .. } => { go(store, *old_proof, step_ix, steps, rules, tf, rc)?; go(store, *new_proof, step_ix, steps, rules, tf, rc)?; ("leaf".to_string(), vec![]) }
+            Justification::Trans(a, b) => { let x = go(store, *a, step_ix, steps, rules, tf, rc)?; let y = go(store, *b, step_ix, steps, rules, tf, rc)?; ("trans".to_string(), vec![x, y]) }
+            Justification::Sym(a) => { let x = go(store, *a, step_ix, steps, rules, tf, rc)?; ("sym".to_string(), vec![x]) }
+            Justification::Congr { proof, child_index, child_proof } => { let x = go(store, *proof, step_ix, steps, rules, tf, rc)?; let y = go(store, *child_proof, step_ix, steps, rules, tf, rc)?; ("congr".to_string(), vec![x, *child_index, y]) }
             _ => return None, // container justifications: outside the fragment
         };
         steps.push((kind, args, l, r)); step_ix.insert(p, steps.len() - 1); Some(steps.len() - 1)
     }
     let mut tf = |t: TermId| term(dag, t, &mut term_ix, &mut terms, &mut heads);
-    go(store, root, &mut step_ix, &mut steps, &mut rules, &mut tf)?;
+    go(store, root, &mut step_ix, &mut steps, &mut rules, &mut tf, &mut rc)?;
+    for t in extra { tf(t); }
     let nterms = terms.len();
-    Some(Export { line: render(&terms, &steps), steps, rules, nterms })
+    // rules outside the fragment keep their index as an empty rule (steps that use them were exported as leaves)
+    let rule_text: String = rule_toks.iter().map(|(_, t)| t.as_ref().map(|x| x.0.clone()).unwrap_or_else(|| " R 0 0".to_string())).collect();
+    let line = render(&terms, &steps).replacen("pk check", &format!("pk check{rule_text}"), 1);
+    Some(Export { line, steps, rules, nterms, rule_text, nrules: rule_toks.len(), rule_steps: rc.exported, rule_steps_leafed: rc.leafed })
 }
 
 fn render(terms: &[(usize, Vec<usize>)], steps: &[(String, Vec<usize>, usize, usize)]) -> String {
@@ -64,13 +194,15 @@ fn render(terms: &[(usize, Vec<usize>)], steps: &[(String, Vec<usize>, usize, us
     s
 }
 
+/// everything before the steps: `pk check`, the rules, the terms
 fn term_line(line: &str) -> String { line.split(" S ").next().unwrap_or("").to_string() }
 
 pub fn run(ctx: &Ctx) -> Report {
     let mut rep = Report::new("C12", "generated programs (constructors, rewrites incl. non-linear ones, rules, unions, lattice functions, runs) in proof mode; every pair of ground terms up to depth 1 as an equality fact and every ground term as an existence fact: prove vs check; every proof exported to the Lean checker; single-point mutations of the exported proof; rule / fact removal re-checked by the in-tree checker through the cfg hook. non-trivial = a proof with >= 1 Rule and >= 1 Congr/Trans step, a false fact, or a mutation/alteration that must be rejected (distinct by (program, fact))");
     let mut rng = Rng::new(ctx.seed ^ 0xC12);
     let n = ctx.n(40, 800);
-    let mut lean_lines: Vec<String> = vec![]; let mut lean_expect: Vec<(bool, String, serde_json::Value)> = vec![];
+    // expectation on the Lean checker: 1 = must accept, 0 = mutation (rejected unless still derivable), -1 = must reject
+    let mut lean_lines: Vec<String> = vec![]; let mut lean_expect: Vec<(i8, String, serde_json::Value)> = vec![];
     // directed: proofs that rest on a NAMED rule with k premises, re-checked against programs in which that rule is
     // removed, or has one more premise at the end / at the front of its body, or a different head
     for k in 1..=3usize {
@@ -85,12 +217,17 @@ pub fn run(ctx: &Ctx) -> Report {
         let Some(CommandOutput::ProveExists { proof_store, proof_id }) = outs.into_iter().find(|o| matches!(o, CommandOutput::ProveExists { .. })) else { continue };
         rep.evaluations += 1; rep.note_nontrivial(&("directed-rule", k));
         if let Err(e) = pr.verif_check_proof(&proof_store, proof_id) { rep.violate("property", "c12-proof-rejected", format!("directed scenario: the proof is rejected against the original program: {e}"), json!({"program": prog})); continue; }
+        if let Some(ex) = export_with(&proof_store, proof_id, Some(&pr.verif_proof_rules())) {
+            if ex.rule_steps == 0 || ex.rule_steps_leafed > 0 { rep.violate("correspondence", "c12-directed-rule-not-exported", format!("directed scenario with {k} premises: {} Rule steps exported, {} left as leaves", ex.rule_steps, ex.rule_steps_leafed), json!({"program": prog})); }
+            lean_lines.push(ex.line.clone()); lean_expect.push((1, format!("directed proof of (= (G (A)) (A)) through rule `collapse` with {k} premises"), json!({"program": prog})));
+        }
         for (what, altered_rule) in [("removed", String::new()), ("given one more premise at the end of its body", rule(&format!("{body} (= zz9 (B))"), "(union x y)")), ("given one more premise at the front of its body", rule(&format!("(= zz9 (B)) {body}"), "(union x y)")), ("given another head", rule(&body, "(union x (B))"))] {
             let aprog = format!("{hdr}{altered_rule}\n{facts}");
             let mut ae = EGraph::new_with_proofs();
             if !engine::run(&mut ae, &aprog).is_ok() { continue; }
             rep.count("rule_alteration_rechecks", 1);
             if ae.verif_check_proof(&proof_store, proof_id).is_ok() { rep.violate("property", "c12-accepts-altered-rule", format!("a proof resting on rule `collapse` ({k} premises) is accepted against a program in which that rule was {what}"), json!({"program": prog, "altered_program": aprog})); }
+            else if let Some(ax) = export_with(&proof_store, proof_id, Some(&ae.verif_proof_rules())) { if ax.rule_steps_leafed == 0 { lean_lines.push(ax.line.clone()); lean_expect.push((-1, format!("directed proof through rule `collapse` ({k} premises) against the program in which that rule was {what}"), json!({"program": prog, "altered_program": aprog}))); } }
         }
     }
     for pi in 0..n {
@@ -127,11 +264,23 @@ pub fn run(ctx: &Ctx) -> Report {
                     rep.count("proofs_obtained", 1);
                     // in-tree checker against the unaltered program (through the hook) must accept
                     if let Err(e) = pr.verif_check_proof(&proof_store, proof_id) { rep.violate("property", "c12-proof-rejected", format!("the proof returned for {f} is rejected by the checker against the original program: {e}"), prog()); continue; }
-                    let Some(ex) = export(&proof_store, proof_id) else { rep.count("proofs_with_container_steps_skipped", 1); continue };
+                    let prules = pr.verif_proof_rules();
+                    let Some(ex) = export_with(&proof_store, proof_id, Some(&prules)) else { rep.count("proofs_with_container_steps_skipped", 1); continue };
+                    rep.count("rule_steps_exported_as_rule_steps", ex.rule_steps as u64); rep.count("rule_steps_left_as_leaves(outside fragment)", ex.rule_steps_leafed as u64);
+                    // single-point mutations of Rule steps that must be rejected outright: a dropped premise
+                    // (C12_dropped_premise_rejected), a rule the program does not have (C12_rule_missing_rejected)
+                    for (mi, st) in ex.steps.iter().enumerate() {
+                        if st.0 != "rule" || mi % 2 != 0 && ex.steps.len() > 12 { continue; }
+                        let np = st.1[1];
+                        if np >= 1 { let mut m = ex.steps.clone(); m[mi].1.remove(1 + np); m[mi].1[1] = np - 1;
+                            lean_lines.push(format!("{}{}", term_line(&ex.line), render(&[], &m).trim_start_matches("pk check"))); lean_expect.push((-1, format!("proof of {f} with the last premise of Rule step {mi} dropped"), prog())); }
+                        let mut m = ex.steps.clone(); m[mi].1[0] = ex.nrules;
+                        lean_lines.push(format!("{}{}", term_line(&ex.line), render(&[], &m).trim_start_matches("pk check"))); lean_expect.push((-1, format!("proof of {f} with Rule step {mi} naming a rule the program does not have"), prog()));
+                    }
                     let structural = ex.steps.iter().filter(|s| s.0 != "leaf").count();
                     if !ex.rules.is_empty() && structural > 0 { rep.note_nontrivial(&(&full, &f)); }
                     rep.count("proof_steps_exported", ex.steps.len() as u64);
-                    lean_lines.push(ex.line.clone()); lean_expect.push((true, format!("proof of {f}"), prog()));
+                    lean_lines.push(ex.line.clone()); lean_expect.push((1, format!("proof of {f}"), prog()));
                     // mutations of the exported object
                     for (mi, st) in ex.steps.iter().enumerate() {
                         let mut m = ex.steps.clone();
@@ -143,10 +292,10 @@ pub fn run(ctx: &Ctx) -> Report {
                         }
                         if mi % 3 != 0 && ex.steps.len() > 12 { continue; }
                         lean_lines.push(format!("{}{}", term_line(&ex.line), render(&[], &m).trim_start_matches("pk check")));
-                        lean_expect.push((false, format!("{} step {mi} of the proof of {f} mutated", st.0), prog()));
+                        lean_expect.push((0, format!("{} step {mi} of the proof of {f} mutated", st.0), prog()));
                     }
                     // substituted term in the conclusion
-                    if ex.nterms >= 2 { let mut m = ex.steps.clone(); let last = m.len() - 1; if m[last].0 != "leaf" { m[last].3 = (m[last].3 + 1) % ex.nterms; if m[last].3 != ex.steps[last].3 { lean_lines.push(format!("{}{}", term_line(&ex.line), render(&[], &m).trim_start_matches("pk check"))); lean_expect.push((false, format!("conclusion of the proof of {f} substituted"), prog())); } } }
+                    if ex.nterms >= 2 { let mut m = ex.steps.clone(); let last = m.len() - 1; if m[last].0 != "leaf" { m[last].3 = (m[last].3 + 1) % ex.nterms; if m[last].3 != ex.steps[last].3 { lean_lines.push(format!("{}{}", term_line(&ex.line), render(&[], &m).trim_start_matches("pk check"))); lean_expect.push((0, format!("conclusion of the proof of {f} substituted"), prog())); } } }
                     // alterations of the checking program: remove a rule the proof uses / remove a top-level fact
                     if pi % 2 == 0 {
                         let mut used: Vec<String> = ex.rules.clone(); used.sort(); used.dedup();
@@ -156,6 +305,7 @@ pub fn run(ctx: &Ctx) -> Report {
                             let mut ae = EGraph::new_with_proofs(); engine::run(&mut ae, &hdr); for c in &altered { engine::run(&mut ae, c); }
                             rep.count("rule_removal_rechecks", 1); rep.note_nontrivial(&(&full, &f, rname));
                             if ae.verif_check_proof(&proof_store, proof_id).is_ok() { rep.violate("property", "c12-accepts-without-rule", format!("the proof of {f} uses rule `{rname}` yet is accepted against a program from which that rule was removed"), prog()); }
+                            else if let Some(ax) = export_with(&proof_store, proof_id, Some(&ae.verif_proof_rules())) { if ax.rule_steps_leafed == 0 { lean_lines.push(ax.line.clone()); lean_expect.push((-1, format!("proof of {f} against the program without rule `{rname}`"), prog())); } }
                         }
                         // ALTER a used rule: the same name, one more premise in its body — a proof that supplies the old
                         // number of premise proofs does not justify a step of the altered rule
@@ -171,6 +321,7 @@ pub fn run(ctx: &Ctx) -> Report {
                             if !ok { continue; }
                             rep.count("rule_alteration_rechecks", 1); rep.note_nontrivial(&(&full, &f, rname, "altered"));
                             if ae.verif_check_proof(&proof_store, proof_id).is_ok() { rep.violate("property", "c12-accepts-altered-rule", format!("the proof of {f} uses rule `{rname}` yet is accepted against a program in which that rule has an additional premise"), prog()); }
+                            else if let Some(ax) = export_with(&proof_store, proof_id, Some(&ae.verif_proof_rules())) { if ax.rule_steps_leafed == 0 { lean_lines.push(ax.line.clone()); lean_expect.push((-1, format!("proof of {f} against the program in which rule `{rname}` has an additional premise"), prog())); } }
                         }
                         // remove every top-level ground insertion / union: any Fiat step must become unjustified
                         let altered: Vec<&String> = text.iter().zip(&cmds).filter(|(_, c)| !matches!(c, Cmd::Act(_))).map(|(t, _)| t).collect();
@@ -188,8 +339,10 @@ pub fn run(ctx: &Ctx) -> Report {
         Ok(m) => for (i, (want, what, prog)) in lean_expect.iter().enumerate() {
             rep.traces_vs_model += 1;
             let got = m[i] == "true";
-            if *want && !got { rep.violate("correspondence", "c12-lean-checker-rejects-real-proof", format!("the in-tree checker accepted the {what} but the Lean structural checker (C12_sound) rejects it: {}", m[i]), prog.clone()); }
-            if !*want { if got { rep.count("mutations_still_derivable", 1); } else { rep.count("mutations_rejected", 1); } }
+            if m[i] != "true" && m[i] != "false" { rep.violate("correspondence", "c12-lean-driver-bad-line", format!("the Lean driver could not read the export of the {what}: {}", m[i]), prog.clone()); continue; }
+            if *want == 1 && !got { rep.violate("correspondence", "c12-lean-checker-rejects-real-proof", format!("the in-tree checker accepted the {what} but the Lean checker (C12_sound / C12_rule_sound) rejects it: {}", m[i]), prog.clone()); }
+            if *want == 0 { if got { rep.count("mutations_still_derivable", 1); } else { rep.count("mutations_rejected", 1); } }
+            if *want == -1 { if got { rep.violate("correspondence", "c12-lean-checker-accepts-unjustified-rule-step", format!("the Lean checker accepts the {what}, which the in-tree checker rejects (or which C12_dropped_premise_rejected / C12_rule_missing_rejected exclude)"), prog.clone()); } else { rep.count("unjustified_rule_steps_rejected_by_both", 1); } }
         }
     }
     rep
